@@ -600,6 +600,10 @@ pub open spec fn dir_ordered(es: Seq<DirEntry>) -> bool {
 pub open spec fn no_record_above(es: Seq<DirEntry>, m: u64) -> bool {
     forall|i: int| 0 <= i < es.len() && seg_seq(#[trigger] es[i]) is Some ==> at_most(seg_records(es[i]), m)
 }
+/// no segment's file name prints a number above m: the segment opened for sequence m + 1 is a new file, sorted after all others
+pub open spec fn no_name_above(es: Seq<DirEntry>, m: u64) -> bool {
+    forall|i: int| 0 <= i < es.len() ==> (seg_seq(#[trigger] es[i]) matches Some(s) ==> s <= m)
+}
 pub open spec fn max_seq(rs: Seq<WalRecord>) -> u64
     decreases rs.len()
 { if rs.len() == 0 { 0 } else { let m = max_seq(rs.drop_last()); if rs.last().sequence > m { rs.last().sequence } else { m } } }
@@ -654,6 +658,7 @@ impl Wal {
         dir_ordered(dir_listing(path.buf())),
 //@ensures
         r matches Ok(w) ==> no_record_above(dir_listing(path.buf()), w.sequence),      //#no_record_on_disk_is_numbered_above_the_counter
+        r matches Ok(w) ==> no_name_above(dir_listing(path.buf()), w.sequence),      //#the_next_segment_is_named_above_every_existing_one
         r matches Ok(w) ==> w.current_file is None && w.path == path.buf(),      //#starts_closed_at_the_given_path
 //@atstart
         broadcast use axiom_question_mark;
@@ -669,6 +674,7 @@ impl Wal {
         dir_ordered(dir_listing(path.buf())),
 //@ensures
         r matches Ok(m) ==> no_record_above(dir_listing(path.buf()), m),      //#no_record_on_disk_is_numbered_above_the_result
+        r matches Ok(m) ==> no_name_above(dir_listing(path.buf()), m),      //#no_segment_name_is_above_the_result
         r matches Err(e) ==> (e matches WalError::Io(x) && x.env@),      //#fails_only_for_the_environment
 //@closure and_then#1 (s: &str) -> (o: Option<&str>) ensures strip_suffix_post(s@, ".log"@, o)
 //@atstart
